@@ -14,12 +14,12 @@ TEXT = {
     },
     "C02": {
         "technique": "small-scope exhaustive enumeration over a special-atom alphabet + random/coverage-guided fuzzing + generated hostile sessions on a live connection",
-        "level_text": "Every string of up to 4 (quick) / 5 (thorough) atoms from a 26-atom alphabet of all special bytes and handled verbs is parsed and probed with Text/Target/Public/Copy (exhaustive within that bound); random and coverage-guided strings go beyond it; live sessions mix every built-in verb with too few/empty/odd parameters (tracking and SASL on and off) with numbered well-formed lines that must all arrive in order; a process death in goirc code is attributed to the journalled session.",
+        "level_text": "Every string of up to 4 (quick) / 5 (thorough) atoms from a 26-atom alphabet of all special bytes and handled verbs is parsed and probed with Text/Target/Public/Copy (exhaustive within that bound); random and coverage-guided strings go beyond it; live sessions mix every built-in verb with too few/empty/odd parameters (tracking and SASL on and off) with numbered well-formed lines that must all arrive in order, while an application goroutine polls the capability, connection and tracker queries and a one-shot handler removes itself; a process death in goirc code is attributed to the journalled session.",
         "level_note": "Exhaustive only within the stated atom bound; beyond it sampling. A handler panic recovered by Config.Recover is not a crash (C16's subject).",
     },
     "C08": {
         "technique": "property-based testing (rapid) + native fuzzing: hostile argument generator over all 28 command methods, wire-byte predicate oracle",
-        "level_text": "Each exported command method is called with generated hostile strings in every fixed and variadic position and with all interesting SplitLen values; the bytes that call put on the wire (delimited by two unforgeable marker lines) must be whole CRLF-terminated lines free of CR/LF, each starting with the method's verb; Raw must write exactly the prefix before the first newline.",
+        "level_text": "Each exported command method is called with generated hostile strings in every fixed and variadic position and with all interesting SplitLen values; the bytes that call put on the wire (delimited by two unforgeable marker lines) must be whole CRLF-terminated lines free of CR/LF, each starting with the method's verb; Raw must write exactly the prefix before the first newline. A session leg repeats the calls with flood control on (from construction, or switched on through Config() on the live client) and while the client is not connected (after Close / server EOF), then reconnects and examines the whole transcript of the new connection.",
         "level_note": "Trusted: the scripted server's transcript and the marker delimiting. Sampling (30k calls quick, 2.4M + fuzzing thorough).",
     },
     "C11": {
@@ -34,7 +34,7 @@ TEXT = {
     },
     "C03": {
         "technique": "property-based testing (rapid) of generated sessions with drawn read segmentation, handler durations and GOMAXPROCS; invariant oracle over a global enter/exit tick history",
-        "level_text": "Sessions of numbered lines are fed through drawn read segmentations (one read, byte-wise, random cuts, a line longer than the read buffer) to 1-4 foreground handlers per verb with drawn durations under GOMAXPROCS 1/2/4/16, ending in EOF / read error / Close with lines still unread. The enter/exit history must show wire order, no overlap between consecutive lines, exactly-once delivery of every acknowledged line, CONNECTED placed after the line before 001 and before the line after it with Me() already updated, and DISCONNECTED after every foreground invocation.",
+        "level_text": "Sessions of numbered lines are fed through drawn read segmentations (one read, byte-wise, random cuts, a line longer than the read buffer) to 1-4 foreground handlers per verb with drawn durations under GOMAXPROCS 1/2/4/16, ending in EOF / read error / Close with lines still unread; some handlers panic and the application's own Config().Recover callback (which does drawn work) ends their invocation; Config().Timeout may be lowered to 1-3 ms on the live client. The enter/exit history must show wire order, no overlap between consecutive lines, exactly-once delivery of every acknowledged line, CONNECTED placed after the line before 001 and before the line after it with Me() already updated, and DISCONNECTED after every foreground invocation.",
         "level_note": "Goroutine scheduling is perturbed, not controlled: a pass is 'no violation in N explored sessions'. A schedule-dependent failure is replayed 200 times and the hit rate reported.",
     },
     "C04": {
@@ -69,17 +69,17 @@ TEXT = {
     },
     "C06": {
         "technique": "property-based fault injection (rapid): configuration x session x coinciding-endings generator with a scripted socket; counting oracle on lifecycle events and Connected() samples",
-        "level_text": "Every way a connection can end (Close from 1-4 goroutines, EOF, read error, write error, context cancellation, read/write faults armed at the k-th call) is generated singly and in coinciding pairs/triples released from a barrier or staggered, over all configuration bits and with Connect called again at drawn points; REGISTER must have completed exactly once when Connect returns, DISCONNECTED must fire exactly once per established connection, Connected() must agree inside the handlers, refused/failed Connects must fire nothing and leave the live connection working.",
+        "level_text": "Every way a connection can end (Close from 1-4 goroutines, EOF, read error, write error, context cancellation, read/write faults armed at the k-th call) is generated singly and in coinciding pairs/triples released from a barrier or staggered, over all configuration bits and with Connect called again at drawn points; REGISTER must have completed exactly once when Connect returns, DISCONNECTED must fire exactly once per established connection, Connected() must agree inside the handlers, refused/failed Connects must fire nothing and leave the live connection working. A reconnect leg issues the next Connect while the previous connection is still being torn down (from inside the DISCONNECTED handler, or from 1-3 goroutines the instant Connected() turns false, with slow foreground work pending): exactly one Connect succeeds, and REGISTER / DISCONNECTED fire exactly once per connection, the old DISCONNECTED while the new connection is up.",
         "level_note": "Fault moments are sampled (k-th call, on release, staggered by yields), schedules perturbed not controlled. The scripted socket's own Close never fails.",
     },
     "C07": {
         "technique": "property-based fault injection (rapid): backlog x sender x server-reading x cause x reconnect-origin x cycles generator; bounded-time completion, per-connection goroutine-leak and fresh-connection oracles",
-        "level_text": "Inbound backlogs up to ~400 lines, handlers that are slow / emit up to 10 lines / query Connected(), up to 4 user goroutines sending hundreds of lines, a server that reads fast, slowly or not at all, flood control on or off, six disconnect causes, reconnect from inside the DISCONNECTED handler or from another goroutine, up to 5 cycles: DISCONNECTED and every Close must complete within the bound, the connection's goroutines (identified by receiver pointer in the stack dump) must all exit, and each reconnect must yield a connection that stays up, registers with the current nick, answers PING, has a reset tracker and receives nothing stale.",
+        "level_text": "Inbound backlogs up to ~400 lines, handlers that are slow / emit up to 10 lines / query Connected(), up to 4 user goroutines sending hundreds of lines, a server that reads fast, slowly or not at all, flood control on or off, six disconnect causes, reconnect from inside the DISCONNECTED handler, from another goroutine, from a watchdog polling Connected(), or from handler and supervisor at once (one is refused), up to 5 cycles: DISCONNECTED and every Close must complete within the bound, the connection's goroutines (identified by receiver pointer in the stack dump) must all exit, and each reconnect must yield a connection that stays up, registers with the current nick, answers PING, has a reset tracker and receives nothing stale.",
         "level_note": "'Bounded' = 20 s (typical milliseconds). User goroutines left blocked in a send on a dead connection are not promised anything and are not checked. Liveness is decided as bounded-time safety; a dead-lock that needs a rare interleaving can be missed.",
     },
     "C05": {
         "technique": "property-based differential testing (rapid): model-generated sessions, handlers snapshot the tracker; reference states from a separate lock-step run",
-        "level_text": "Conformant sessions from the C13 network model, every line tagged with its index, are fed to a tracked client whose foreground and background handlers on every state-changing verb snapshot the whole tracker through the public API. In lock-step mode every handler must see exactly the reference state after its line; in burst mode (all lines at once, slow foreground handlers) every foreground handler must see its line applied and no later line.",
+        "level_text": "Conformant sessions from the C13 network model, every line tagged with its index, are fed to a tracked client whose foreground and background handlers on every state-changing verb snapshot the whole tracker through the public API. In lock-step mode every handler must see exactly the reference state after its line; in burst mode (all lines at once, slow foreground handlers) every foreground handler must see its line applied and no later line. In a quarter of the sessions tracking is switched on only on the live connection, after lines that mean nothing to a tracker; inside every handler Me() must agree with GetNick(Me().Nick).",
         "level_note": "Background handlers are checked in lock-step mode only (in burst mode later lines may legitimately be applied while they run). Interleavings are sampled.",
     },
     "C13": {
